@@ -1,12 +1,9 @@
 //verif:dest internal/ssh/client/zz_verif_c17.go
-//verif:replace golang.org/x/crypto/ssh/knownhosts.New = c17KnownHosts
 
 package client
 
 import (
 	"context"
-	"errors"
-	"net"
 	"strings"
 	"sync"
 	"time"
@@ -16,35 +13,7 @@ import (
 	"github.com/mimecast/dtail/internal/verifh/memfs"
 	"github.com/mimecast/dtail/internal/verifrt"
 
-	"golang.org/x/crypto/ssh"
 )
-
-type c17Key struct{ id byte }
-
-func (k c17Key) Type() string                                { return "toy" }
-func (k c17Key) Marshal() []byte                             { return []byte{'K', k.id} }
-func (k c17Key) Verify(data []byte, sig *ssh.Signature) error { return nil }
-
-type c17Addr string
-
-func (a c17Addr) Network() string { return "tcp" }
-func (a c17Addr) String() string  { return string(a) }
-
-// verdict of the known_hosts matcher per host: 0 known, 1 unknown, 2 key changed
-var c17Verdict = map[string]int{}
-
-func c17KnownHosts(files ...string) (ssh.HostKeyCallback, error) {
-	return func(hostname string, remote net.Addr, key ssh.PublicKey) error {
-		switch c17Verdict[hostname] {
-		case 0:
-			return nil
-		case 1:
-			return errors.New("knownhosts: key is unknown")
-		default:
-			return errors.New("knownhosts: key mismatch")
-		}
-	}, nil
-}
 
 const c17Path = "/home/u/.ssh/known_hosts"
 
